@@ -49,6 +49,7 @@ func c12Specs(tier string) []*Spec {
 	k3 := bs("a", "ab", "b")
 	k2 := bs("a", "b")
 	if tier == "quick" {
+		add("emptykey/d6", defaultCfg, [][]byte{{}, []byte("a")}, 6, 2)
 		addNarrow("cold-tools/2keys/d7", defaultCfg, k2, Alpha{Writes: true, NoRemove: true, Save: true, ColdDelTo: true, ColdDelFrom: true, MaxVersions: 3}, 7)
 		addNarrow("rewrite/2keys/d8", defaultCfg, k2, rewrite, 8)
 		addNarrow("resave/1key/d9", defaultCfg, bs("a"), resave, 9)
@@ -60,6 +61,7 @@ func c12Specs(tier string) []*Spec {
 		add("cache1000/3keys/d6", Cfg{Fast: true, Cache: 1000}, k3, 6, 3)
 		return specs
 	}
+	add("emptykey/d8", defaultCfg, [][]byte{{}, []byte("a")}, 8, 3)
 	addNarrow("cold-tools/2keys/d9", defaultCfg, k2, Alpha{Writes: true, NoRemove: true, Save: true, ColdDelTo: true, ColdDelFrom: true, MaxVersions: 3}, 9)
 	addNarrow("rewrite/2keys/d10", defaultCfg, k2, rewrite, 10)
 	addNarrow("resave/1key/d11", defaultCfg, bs("a"), resave, 11)
